@@ -161,11 +161,15 @@ func (g *gen) kvWrite(t *hx.Tx) {
 	case 2:
 		t.PutTS(b, k, g.val(), 500, now-1000) // already expired
 	case 3:
-		t.PutTS(b, k, g.val(), 100000, now-1000) // live for a long time
+		ts := now - 1000
+		if g.r.Intn(2) == 0 {
+			ts = now + 3600 // a timestamp ahead of the clock: live until timestamp + TTL
+		}
+		t.PutTS(b, k, g.val(), 100000, ts) // live for a long time
 	case 4:
 		t.Put(b, k, g.val(), 100000)
 	case 5:
-		t.PutTS(b, k, g.val(), 0, now-uint64(g.r.Intn(5000)))
+		t.PutTS(b, k, g.val(), 0, now+2500-uint64(g.r.Intn(5000)))
 	default:
 		t.Put(b, k, g.val(), 0)
 	}
@@ -1388,6 +1392,9 @@ func main() {
 			g.histMixed(mixOpts{kinds: []string{strings.TrimSuffix(c.Family, "multi")}, pMulti: 75, pNoCommit: 8})
 		case "iso": // C04: adversarial bucket names, every structure
 			g.histMixed(mixOpts{kinds: []string{"kv", "list", "set", "zset"}, pMulti: 50, pNoCommit: 10, buckets: isoBuckets, obsAlways: true})
+		case "isomerge": // C04 across Merge and reopen (no lists: a Merge with list records is a recorded finding)
+			g.noSMove = true
+			g.histMixed(mixOpts{kinds: []string{"kv", "set", "zset"}, pMulti: 50, pNoCommit: 10, pMerge: 12, buckets: isoBuckets, obsAlways: true})
 		case "isokv":
 			g.histMixed(mixOpts{kinds: []string{"kv"}, pMulti: 50, pNoCommit: 10, buckets: isoBuckets, obsAlways: true})
 		case "mixedkv": // C08 in the other index modes
